@@ -39,4 +39,11 @@ TEXT = {
  'design_ref': 'DESIGN.md §5 C16',
  'note': 'Trusted: the in-memory transport and the universal handler/client programs. Bounded by n ≤ 6 interceptors and nesting depth ≤ 3.',
  'technique': 'property-based testing (rapid) + exhaustive enumeration of compositions: reference model (flat concatenation) vs observed event log'},
+    'C19': {'text': 'Exploration: generated panic values (incl. nil under both GODEBUG panicnil modes, runtime errors, the abort sentinel and an error wrapping it) × 4 '
+         "kinds × 3 protocols × panic points × interceptor positions × recovery results, plus no-panic controls. Differential oracle against the Go runtime's "
+         'own recover(), reference-model comparison of the client-visible error, byte-identical exchange for controls.',
+ 'design_ref': 'DESIGN.md §5 C19',
+ 'note': "Trusted: memnet.Mem's recording of escaped panics. Panics raised inside other interceptors are outside the generated domain.",
+ 'technique': "property-based testing (rapid): differential against Go's recover(), exactly-once counter, model comparison of the delivered error, metamorphic "
+              'with/without WithRecover for non-panicking calls'},
 }
